@@ -44,8 +44,9 @@ ASSUMPTIONS = [
     "parent-directory deletion of cached file outputs (F-mkdir) and lost blobs of directory outputs (F-errchan) are not generated",
 ]
 
-FAMILIES_QUICK = [("edits", 7, {}), ("tamper", 6, {}), ("dirs", 7, {}), ("cutoff", 4, {}), ("alias", 3, {}), ("nocache", 3, {}),
-                  ("taintedit", 5, {}), ("relocate", 5, {}), ("edits", 3, {"minimal": True}), ("wipe", 3, {}), ("wipe", 3, {"minimal": True})]
+FAMILIES_QUICK = [("edits", 6, {}), ("tamper", 6, {}), ("dirs", 6, {}), ("cutoff", 3, {}), ("alias", 3, {}), ("nocache", 3, {}),
+                  ("taintedit", 4, {}), ("relocate", 4, {}), ("disabled", 4, {}), ("samehash", 0, {}), ("edits", 3, {"minimal": True}),
+                  ("wipe", 3, {}), ("wipe", 3, {"minimal": True})]
 FAMILIES_THOROUGH = [(f, n * 15, kw) for f, n, kw in FAMILIES_QUICK]
 
 SIG_GLOBOUT = "noop-rebuild-executes:input-glob-matches-dependency-output"
@@ -83,9 +84,31 @@ def run(ctx):
     cnt = {"noop_checked": 0, "subset_checked": 0, "cutoff_checked": 0, "summary_checked": 0, "oracle_failures": 0}
     for r in recs:
         h = r["hist"]
+        seen = {}           # label -> set of (own state, dependency labels) the target has been built in
         for b in H.walk(h, r["real"]):
             o, ws, prev = b["obs"], b["ws"], b["prev"]
             s = b["step"]
+            # a dependency was only added or only removed (own definition and inputs unchanged): the list of dependency output
+            # hashes in the key gets longer / shorter, so the key is new and the target must run (unless this exact state was built before)
+            for l in H.selected(ws, s["patterns"]):
+                cur_pair = (H.state_key(ws, l), tuple(H.rdeps(ws, l)))
+                if prev is not None and prev["obs"]["ok"] and o["ok"] and l in prev["ws"]["targets"] and s.get("enable_cache", True) \
+                        and not ws["targets"][l].get("nocache"):
+                    old_pair = (H.state_key(prev["ws"], l), tuple(H.rdeps(prev["ws"], l)))
+                    a, c = set(old_pair[1]), set(cur_pair[1])
+                    # (dependencies with equal output hashes are interchangeable, so "new" is judged by the NUMBER of dependencies:
+                    #  a number never built with this own state means a list of hashes of a new length)
+                    counts = {len(dl) for st, dl in seen.get(l, set()) if st == cur_pair[0]}
+                    if old_pair[0] == cur_pair[0] and a != c and (a < c or c < a) and counts and len(c) not in counts \
+                            and l not in o["executed"]:
+                        cnt["oracle_failures"] += 1
+                        small = H.truncate(h, b["n"] + 1)
+                        ctx.violation("a dependency was added to / removed from a target but the target was served from the cache (its key did not change)",
+                                      {"kind": "oracle", "oracle": "dependency list changed => key changes", "history": small,
+                                       "described": H.describe(small), "target": l, "before": list(old_pair[1]), "after": list(cur_pair[1]),
+                                       "executed": o["executed"]}, signature="dependency-added-or-removed-not-executed")
+                if o["ok"]:
+                    seen.setdefault(l, set()).add(cur_pair)
             nocache = {l for l, t in ws["targets"].items() if t.get("nocache")}
             sel = set(H.selected(ws, s["patterns"]))
             # (4) summary numbers
